@@ -56,7 +56,14 @@ def obligations(ctx):
                 iv = VM.deref(E_, u.fields[names.index("input")]) if isinstance(u, VStruct) else u
                 return int(iv.path[len("txin"):]) if isinstance(iv, VLazy) and iv.path.startswith("txin") else None
 
-            E.extra_intrinsics[r"TransactionBuilder::get_total_input$"] = lambda E_, c, a: VM.ok(val(tin.t))
+            def total_input(E_, c, a):
+                # the inputs already in the builder (or a positive mint) may carry native assets the outputs do not ask for
+                tok = E_.fresh("input_carries_tokens", "bool")
+                if E_.choose([z3.Not(tok), tok], "tokens among the inputs already there") == 0:
+                    return VM.ok(val(tin.t))
+                q_ = E_.fresh("input_token_q"); E_.pc.append(z3.And(q_ >= 1, q_ <= U64))
+                return VM.ok(VM.mk_value(tin.t, (q_, z3.BoolVal(False), z3.Const("input_token_rest", E_.U))))
+            E.extra_intrinsics[r"TransactionBuilder::get_total_input$"] = total_input
             def total_output(E_, c, a, nreq=nreq):
                 if nreq == 0:
                     return VM.ok(val(tout.t))
